@@ -59,13 +59,17 @@ def reals(names):
 
 
 class Lemma:
-    def __init__(self, name, params, requires, ensures, prop, what, body=""):
+    def __init__(self, name, params, requires, ensures, prop, what, body="", mode="nl"):
         self.name, self.params, self.requires, self.ensures, self.prop, self.what, self.body = name, params, requires, ensures, prop, what, body
+        self.mode = mode  # "nl": flat non-linear lemma (mod nl);  "root": default-mode composition of other lemmas
 
     def text(self, canary=False):
         req = (" requires " + ", ".join(self.requires)) if self.requires else ""
         if canary:
             return f"pub proof fn canary_{self.name}({self.params}) by(nonlinear_arith){req} ensures false {{}}\n"
+        if self.mode == "root":
+            ens = " ensures\n    " + ",\n    ".join(self.ensures)
+            return f"pub proof fn {self.name}({self.params}){req}{ens}\n{{ {self.body} }}\n"
         # one ensures clause per line: a failing clause is attributed to its part by line number
         ens = " ensures\n    " + ",\n    ".join(self.ensures)
         return f"pub proof fn {self.name}({self.params}) by(nonlinear_arith){req}{ens}\n{{}}\n"
@@ -237,6 +241,21 @@ def gen_type_lemmas2(meta):
         ens = [f"a_re > b_re ==> {m('abs_sub', p, A + B)} == a_{p} - b_{p}" for p in parts] + \
               [f"a_re <= b_re ==> {m('abs_sub', p, A + B)} == 0real" for p in parts]
         out.append(Lemma(f"lem_{ty}_abs_sub", reals(A + B), [], ens, ["C01", "C06"], "abs_sub = positive difference decided by the real parts"))
+    # atan2(S, O): first-order parts satisfy  y1 * (o^2 + s^2) == o * s1 - s * o1  on the whole domain incl. both axes
+    if have("atan2"):
+        Sx_ = [f"s_{p}" for p in parts]
+        Ox_ = [f"o_{p}" for p in parts]
+        first = [p for p in parts if p in ("eps", "v1", "eps1", "eps2", "eps3")]
+        common = ["s_re * recip_r(s_re) == 1real || s_re == 0real", "o_re * recip_r(o_re) == 1real || o_re == 0real",
+                  "({ let q = s_re * recip_r(o_re); (1real + q * q) * recip_r(1real + q * q) == 1real })",
+                  "({ let q = o_re * recip_r(s_re); (1real + q * q) * recip_r(1real + q * q) == 1real })",
+                  "({ let q = s_re * (1real / o_re); (1real + q * q) * recip_r(1real + q * q) == 1real }) || o_re == 0real",
+                  "({ let q = o_re * (1real / s_re); (1real + q * q) * recip_r(1real + q * q) == 1real }) || s_re == 0real"]
+        for cname, hy in [("x_dominant", ["!(abs_r(o_re) < abs_r(s_re))", "o_re != 0real"]), ("y_dominant", ["abs_r(o_re) < abs_r(s_re)", "s_re != 0real"])]:
+            ens = [f"{m('atan2', p, Sx_ + Ox_)} * (o_re * o_re + s_re * s_re) == o_re * s_{p} - s_re * o_{p}" for p in first]
+            ens.append(f"{m('atan2', 're', Sx_ + Ox_)} == atan2_r(s_re, o_re)")
+            out.append(Lemma(f"lem_{ty}_atan2_{cname}", reals(Sx_ + Ox_), hy + common, ens, ["C01", "C10", "C03"],
+                             f"atan2: real part = atan2 of the real parts; first-order parts y' (o^2+s^2) = o s' - s o' ({cname} half-plane, axes included)"))
     # ---------------- C09 powers ----------------
     if have("powi"):
         P = lambda k: f"powi_r(x_re, exp - {k})"  # noqa: E731
@@ -245,8 +264,6 @@ def gen_type_lemmas2(meta):
         ens = [f"{m('powi', p, X + ['exp'])} == {lift(p, X, ['(' + t + ')' for t in g])}" for p in parts]
         base = ["powi_r(x_re, 0) == 1real", "powi_r(x_re, 1) == x_re", "powi_r(x_re, 2) == x_re * x_re"]
         gen = ["exp != 0", "exp != 1", "exp != 2",
-               "((exp * (exp - 1)) as real) == (exp as real) * ((exp as real) - 1real)",
-               "((exp * (exp - 1) * (exp - 2)) as real) == (exp as real) * ((exp as real) - 1real) * ((exp as real) - 2real)",
                f"{P(0)} == {P(3)} * x_re * x_re * x_re", f"{P(1)} == {P(3)} * x_re * x_re", f"{P(2)} == {P(3)} * x_re"]
         what = "powi: every part = lift of the generalized power rule n!/(n-k)! x^(n-k)"
         for cname, hy in [("exp0", ["exp == 0"] + base), ("exp1", ["exp == 1"] + base), ("exp2", ["exp == 2"] + base), ("general", gen)]:
@@ -269,36 +286,106 @@ def gen_type_lemmas2(meta):
                f"{m('powd', p, X + N)} == {lift(p, Z, ['e', 'e', 'e', 'e'])}" + " })" for p in parts]
         out.append(Lemma(f"lem_{ty}_powd", reals(X + N), [], ens, ["C09", "C03"], "powd = exp(N (x) ln X) as jets (logarithmic derivative w.r.t. a dual exponent)"))
     # ---------------- C15 spherical Bessel ----------------
-    big = ["abs_r(x_re) >= eps_r()", "eps_r() > 0real", "x_re != 0real", "x_re * recip_r(x_re) == 1real",
-           "(x_re * x_re) * recip_r(x_re * x_re) == 1real", "(x_re * x_re * x_re) * recip_r(x_re * x_re * x_re) == 1real"]
+    # closed-form branch: composition proofs (default mode) from the per-operation lemmas -- the C03 induction step
+    # instantiated on the program text of each function.  J = (mirror-side parts, spec-side parts).
     zero_h = ["x_re == 0real", "eps_r() > 0real"]
     S = lifted(X, sin_g)
     Cc = lifted(X, cos_g)
-    XX = [mul_call(shape, p, X, X) for p in parts]
+    calls = []
+
+    def mm(fn_, args):
+        return [m(fn_, p, args) for p in parts]
+
+    def call(lem, args):
+        calls.append(f"nl::lem_{ty}_{lem}({', '.join(args)});")
+
+    ctr = [0]
+
+    def bind(exprs):
+        """ghost let-bindings keep the proof context a DAG (inlining substitutes argument text)"""
+        ctr[0] += 1
+        names = [f"v{ctr[0]}_{p}" for p in parts]
+        for n_, e in zip(names, exprs):
+            calls.append(f"let {n_} = {e};")
+        return names
+
+    def binop(op, form, a, b):
+        r = bind(mm(f"{op}_{form}", a + b))
+        if form != "rr":
+            call(f"{op}_{form}", a + b)
+        call(op, a + b)
+        return r
+
+    lets = "let x = x_re; " + sin_lets
+    wrap = lambda e: "({ " + lets + e + " })"  # noqa: E731
+    Sx = [wrap(e) for e in S]
+    Cx = [wrap(e) for e in Cc]
+    c3 = ["3real"] + zeros
+    if have("sph_j0") and have("sin") and have("div_or"):
+        calls = []
+        Sm = bind(mm("sin", X))
+        call("sin", X)
+        binop("div", "or", Sm, X)
+        Y = mm("sph_j0", X)
+        ens = [f"{mul_call(shape, p, Y, X)} == {Sx[i]}" for i, p in enumerate(parts)]
+        hy = ["abs_r(x_re) >= eps_r()", "eps_r() > 0real", "x_re != 0real", "x_re * recip_r(x_re) == 1real"]
+        out.append(Lemma(f"lem_{ty}_sph_j0_closed", reals(X), hy, ens, ["C15", "C03"],
+                         "sph_j0 for |x| >= eps (both signs): Y (x) X == sin X", body=" ".join(calls), mode="root"))
     if have("sph_j0"):
-        Y = [m("sph_j0", p, X) for p in parts]
-        ens = ["({ let x = x_re; " + sin_lets + f"{mul_call(shape, p, Y, X)} == {S[i]}" + " })" for i, p in enumerate(parts)]
-        out.append(Lemma(f"lem_{ty}_sph_j0_closed", reals(X), big, ens, ["C15", "C03"], "sph_j0 for |x| >= eps (both signs): Y (x) X == sin X"))
+        Y = mm("sph_j0", X)
         tabz = ["1real", "0real", "(-(1real / 3real))", "0real"]
         ens = [f"{Y[i]} == {lift(p, X, tabz)}" for i, p in enumerate(parts)]
         out.append(Lemma(f"lem_{ty}_sph_j0_zero", reals(X), zero_h, ens, ["C15", "C10"], "sph_j0 at x = 0: lift of the Maclaurin table (1, 0, -1/3, 0)"))
+    if have("sph_j1") and have("sin_cos") and have("div_oo"):
+        calls = []
+        Sm = bind([m("sin_cos", "0_" + p, X) for p in parts])
+        Cm = bind([m("sin_cos", "1_" + p, X) for p in parts])
+        call("sin_cos", X)
+        XC = binop("mul", "ro", X, Cm)
+        D = binop("sub", "oo", Sm, XC)
+        XXm = binop("mul", "rr", X, X)
+        binop("div", "oo", D, XXm)
+        Y = mm("sph_j1", X)
+        XXs = [mul_call(shape, p, X, X) for p in parts]
+        XCs = [mul_call(shape, p, X, Cx) for p in parts]
+        ens = [f"{mul_call(shape, p, Y, XXs)} == {Sx[i]} - {XCs[i]}" for i, p in enumerate(parts)]
+        hy = ["abs_r(x_re) >= eps_r()", "eps_r() > 0real", "x_re * x_re != 0real", "(x_re * x_re) * recip_r(x_re * x_re) == 1real"]
+        out.append(Lemma(f"lem_{ty}_sph_j1_closed", reals(X), hy, ens, ["C15", "C03"],
+                         "sph_j1 for |x| >= eps: Y (x) (X (x) X) == sin X - X (x) cos X", body=" ".join(calls), mode="root"))
     if have("sph_j1"):
-        Y = [m("sph_j1", p, X) for p in parts]
-        YX = [mul_call(shape, p, Y, X) for p in parts]
-        XC = [mul_call(shape, p, X, Cc) for p in parts]
-        ens = ["({ let x = x_re; " + sin_lets + f"{mul_call(shape, p, YX, X)} == {S[i]} - {XC[i]}" + " })" for i, p in enumerate(parts)]
-        out.append(Lemma(f"lem_{ty}_sph_j1_closed", reals(X), big, ens, ["C15", "C03"], "sph_j1 for |x| >= eps: Y (x) X (x) X == sin X - X (x) cos X"))
+        Y = mm("sph_j1", X)
         tabz = ["0real", "(1real / 3real)", "0real", "(-(1real / 5real))"]
         ens = [f"{Y[i]} == {lift(p, X, tabz)}" for i, p in enumerate(parts)]
         out.append(Lemma(f"lem_{ty}_sph_j1_zero", reals(X), zero_h, ens, ["C15", "C10"], "sph_j1 at x = 0: lift of the Maclaurin table (0, 1/3, 0, -1/5)"))
+    if have("sph_j2") and have("sin_cos") and have("div_oo") and have("mul_of"):
+        calls = []
+        Sm = bind([m("sin_cos", "0_" + p, X) for p in parts])
+        Cm = bind([m("sin_cos", "1_" + p, X) for p in parts])
+        call("sin_cos", X)
+        XXm = binop("mul", "rr", X, X)
+        XC = binop("mul", "ro", X, Cm)
+        D1 = binop("sub", "ro", Sm, XC)
+        D2 = bind(mm("mul_of", D1 + ["3real"]))
+        call("mul_of", D1 + ["3real"])
+        call("mul", D1 + c3)
+        XXS = binop("mul", "ro", XXm, Sm)
+        Nn = binop("sub", "oo", D2, XXS)
+        XXX = binop("mul", "or", XXm, X)
+        binop("div", "oo", Nn, XXX)
+        Y = mm("sph_j2", X)
+        XXs = [mul_call(shape, p, X, X) for p in parts]
+        XXXs = [mul_call(shape, p, XXs, X) for p in parts]
+        XCs = [mul_call(shape, p, X, Cx) for p in parts]
+        D1s = [f"({Sx[i]} - {XCs[i]})" for i in range(len(parts))]
+        D2s = [mul_call(shape, p, D1s, c3) for p in parts]
+        XXSs = [mul_call(shape, p, XXs, Sx) for p in parts]
+        ens = [f"{mul_call(shape, p, Y, XXXs)} == {D2s[i]} - {XXSs[i]}" for i, p in enumerate(parts)]
+        hy = ["abs_r(x_re) >= eps_r()", "eps_r() > 0real", "(x_re * x_re) * x_re != 0real",
+              "((x_re * x_re) * x_re) * recip_r((x_re * x_re) * x_re) == 1real"]
+        out.append(Lemma(f"lem_{ty}_sph_j2_closed", reals(X), hy, ens, ["C15", "C03"],
+                         "sph_j2 for |x| >= eps: Y (x) X^3 == 3 (sin X - X cos X) - X^2 sin X", body=" ".join(calls), mode="root"))
     if have("sph_j2"):
-        Y = [m("sph_j2", p, X) for p in parts]
-        YX = [mul_call(shape, p, Y, X) for p in parts]
-        YXX = [mul_call(shape, p, YX, X) for p in parts]
-        XC = [mul_call(shape, p, X, Cc) for p in parts]
-        XXS = [mul_call(shape, p, XX, S) for p in parts]
-        ens = ["({ let x = x_re; " + sin_lets + f"{mul_call(shape, p, YXX, X)} == 3real * {S[i]} - {XXS[i]} - 3real * {XC[i]}" + " })" for i, p in enumerate(parts)]
-        out.append(Lemma(f"lem_{ty}_sph_j2_closed", reals(X), big, ens, ["C15", "C03"], "sph_j2 for |x| >= eps: Y (x) X^3 == (3 - X^2) sin X - 3 X cos X"))
+        Y = mm("sph_j2", X)
         tabz = ["0real", "0real", "(2real / 15real)", "0real"]
         ens = [f"{Y[i]} == {lift(p, X, tabz)}" for i, p in enumerate(parts)]
         out.append(Lemma(f"lem_{ty}_sph_j2_zero", reals(X), zero_h, ens, ["C15", "C10"], "sph_j2 at x = 0: lift of the Maclaurin table (0, 0, 2/15, 0)"))
